@@ -44,8 +44,13 @@ Fixpoint to_json (v : GS.value float) : json :=
 
 Definition show_queries (l : list (GS.value float)) : string := show_list show_sorted (map to_json l).
 
-Definition line_model (id : Z) (n : nat) (q : json) : string :=
-  line "M" id (show_res show_queries (GS.run n (of_json q))).
+(* plugin chains as the harness writes them: G = grid_search, A p section = the stub plugin *)
+Inductive rstage := G | A (p : GS.pred) (section : json).
+Definition stages_of (l : list rstage) : list (GS.stage (F := float)) :=
+  map (fun s => match s with G => GS.SGrid | A p sec => GS.SAdd p (of_json sec) end) l.
+
+Definition line_model (id : Z) (chain : list rstage) (q : json) : string :=
+  line "M" id (show_res show_queries (GS.run_stages (stages_of chain) (of_json q))).
 
 (* MultiSet::from(&sets).into_iter().collect() on integer sets *)
 Definition line_mset (id : Z) (sets : list (list Z)) : string :=
@@ -55,11 +60,11 @@ Definition sorted_texts (l : list (GS.value float)) : string :=
   show_list (fun s => s) (StringSort.sort (map (fun v => show_sorted (to_json v)) l)).
 
 (* the model's result as a multiset (second correspondence, stream `gridset`) *)
-Definition line_model_sorted (id : Z) (n : nat) (q : json) : string :=
-  line "M" id (show_res sorted_texts (GS.run n (of_json q))).
+Definition line_model_sorted (id : Z) (chain : list rstage) (q : json) : string :=
+  line "M" id (show_res sorted_texts (GS.run_stages (stages_of chain) (of_json q))).
 
-Definition line_spec (id : Z) (q : json) : string :=
-  line "S" id (match GS.spec (of_json q) with
+Definition line_spec (id : Z) (chain : list rstage) (q : json) : string :=
+  line "S" id (match GS.spec_stages (stages_of chain) (of_json q) with
                | None => "unspecified"
                | Some l => "Ok " ++ sorted_texts l
                end).
